@@ -50,7 +50,7 @@ From H2V Require Import Base.Tac Base.Bytes Gen.StaticTable Model.HttpTokens Mod
 From H2V Require Import Ref.Rfc7541Block.       (* used by the oracle at the end of the file only *)
 Local Open Scope N_scope.
 
-Definition hfield : Type := (list N * list N)%type.       (* (name, value) *)
+Notation hfield := (list N * list N)%type (only parsing).       (* (name, value) *)
 Definition lenb (l : list N) : N := N.of_nat (List.length l).
 
 Inductive fail := EvictEmpty | SizeUnderflow | AssertSensitive | NoPreviousName | OutOfFuel.
